@@ -95,7 +95,9 @@ pub fn exec(case: &[i64]) -> Outcome {
     for _ in 0..5 { let n = take1(&mut v).unwrap(); let mut l = Vec::new(); for _ in 0..n { let t = take1(&mut v).unwrap(); let u = take_u(&mut v); if t == 0 { l.push((true, u, take1(&mut v).unwrap())); } else { l.push((false, u, -1)); } } rels.push(l); }
     let n = take1(&mut v).unwrap(); let mut svc = Vec::new(); for _ in 0..n { svc.push((take_u(&mut v), take1(&mut v).unwrap())); }
     // payloads >= 500 are KEYLESS methods (no key in the stores: e.g. the controller's key listed in this document): written into the JSON below
-    for (u, x) in &vm { if *x < 500 { gen_one(&mut w, *u, *x, MethodScope::VerificationMethod).await; } }
+    // a keyed method that is NOT '<own DID>#f' (another DID, or a path / query in its id) is generated under a temporary fragment and re-labelled below
+    let relabelled = |u: &U| u.d != 1 || u.r != 0;
+    for (i, (u, x)) in vm.iter().enumerate() { if *x < 500 { let gu = if relabelled(u) { U { d: 1, r: 0, f: 900 + i as i64 } } else { *u }; gen_one(&mut w, gu, *x, MethodScope::VerificationMethod).await; } }
     for (ri, l) in rels.iter().enumerate() { for (e, u, x) in l { if *e { gen_one(&mut w, *u, *x, MethodScope::VerificationRelationship(RELS[ri])).await; } } }
     // references (dangling ones too) and services: edit the JSON so that the order inside each set is the case's order
     let mut j: serde_json::Value = serde_json::to_value(&w.doc).unwrap();
@@ -106,7 +108,7 @@ pub fn exec(case: &[i64]) -> Outcome {
         if *x >= 500 { let mut m = c04::meth_json(*u, *x); m["controller"] = serde_json::json!(c04::DIDS[u.d as usize]); m["publicKeyMultibase"] = serde_json::json!(format!("z{}", x.to_string().replace('0', "A")));   // decodable base58: the method digest of such a method can be computed
           out.push(m); w.data_of_id.insert(c04::ustr(*u), *x); continue; }
         let mut m = g.next().unwrap();
-        if u.d != 1 { m["id"] = serde_json::json!(c04::ustr(*u)); m["controller"] = serde_json::json!(c04::DIDS[u.d as usize]); w.data_of_id.insert(c04::ustr(*u), *x); }
+        if relabelled(u) { m["id"] = serde_json::json!(c04::ustr(*u)); m["controller"] = serde_json::json!(c04::DIDS[u.d as usize]); w.data_of_id.insert(c04::ustr(*u), *x); }
         out.push(m); }
       if !out.is_empty() { j["verificationMethod"] = serde_json::Value::Array(out); } }
     for (ri, l) in rels.iter().enumerate() {
@@ -117,11 +119,17 @@ pub fn exec(case: &[i64]) -> Outcome {
     }
     if !svc.is_empty() { j["service"] = serde_json::Value::Array(svc.iter().map(|(u, x)| c04::svc_json(*u, *x)).collect()); }
     w.doc = match CoreDocument::from_json(&j.to_string()) { Ok(d) => d, Err(_) => return Outcome::new(vec![-6]).class("start-rejected").trivial() };
+    // the key id of a re-labelled method is recorded under the digest of the method as the document now holds it (the digest covers the fragment)
+    for (u, x) in vm.iter() { if *x < 500 && relabelled(u) {
+      let id = c04::ustr(*u);
+      if let Some(m) = w.doc.verification_method().iter().find(|m| m.id().to_string() == id) { if let Ok(dg_new) = MethodDigest::new(m) {
+        if let Some(entry) = w.keys.iter_mut().find(|(d, _, _)| d == x) { let _ = w.storage.key_id_storage().inner.delete_key_id(&entry.2).await; let _ = w.storage.key_id_storage().inner.insert_key_id(dg_new.clone(), entry.1.clone()).await; entry.2 = dg_new; } } }
+    } }
     // ---- the operation under test
     let before = w.doc.clone();
     let (keys_before, kids_before) = (w.storage.key_storage().inner.count().await, w.storage.key_id_storage().inner.count().await);
     let op = take1(&mut v).unwrap();
-    let mut new_key: Option<i64> = None;
+    let mut new_key: Option<i64> = None; let mut purged_id: Option<String> = None;
     let (res, target): (Result<(), StorageError>, String) = if op == 0 {
       let k = take1(&mut v).unwrap(); let u = take_u(&mut v); let sc = take1(&mut v).unwrap();
       let bits = take_lp(&mut v).unwrap(); *w.ctl.script.borrow_mut() = bits.to_vec();
@@ -139,7 +147,7 @@ pub fn exec(case: &[i64]) -> Outcome {
     } else {
       let u = take_u(&mut v);
       let bits = take_lp(&mut v).unwrap(); *w.ctl.script.borrow_mut() = bits.to_vec();
-      let id = DIDUrl::parse(c04::ustr(u)).unwrap();
+      let id = DIDUrl::parse(c04::ustr(u)).unwrap(); purged_id = Some(c04::ustr(u));
       w.ctl.active.set(true);
       let r = w.doc.purge_method(&w.storage, &id).await;
       w.ctl.active.set(false);
@@ -179,6 +187,9 @@ pub fn exec(case: &[i64]) -> Outcome {
         } else {
           if w.doc.resolve_method(target.as_str(), None).is_some() && sorted_json(&w.doc) == sorted_json(&before) { o = o.fail("purge completed but the method is still there"); }
           if keys_after + 1 != keys_before || kids_after + 1 != kids_before { o = o.fail("purge completed but key / key id were not removed together"); }
+          // exactly the purged method's key and key id are gone, every other method keeps a usable key
+          let purged_data = purged_id.as_ref().and_then(|id| w.data_of_id.get(id)).copied();
+          for (idx, (data, _, _)) in w.keys.iter().enumerate() { let should_exist = Some(*data) != purged_data; if (key_flags[idx] == 1) != should_exist || (kid_flags[idx] == 1) != should_exist { o = o.fail("purge completed but not exactly the purged method's key and key id were removed (another method lost its key, or the purged one kept it)"); } }
         }
       }
       _ => {}
@@ -200,6 +211,9 @@ pub fn gen(rng: &mut Rng, thorough: bool, sink: &mut Sink) {
   // a general method of another DID with the fragment that is about to be generated / purged (listed before and after an own method)
   shapes.push(Start { vm: vec![(u(2, 0, 1), 1)], rels: e(), svc: vec![] });
   shapes.push(Start { vm: vec![(u(2, 0, 1), 1), (u(1, 0, 2), 2), (u(2, 0, 3), 3)], rels: e(), svc: vec![] });
+  // two keyed methods that share DID and fragment and differ in the query of their ids (both orders)
+  shapes.push(Start { vm: vec![(u(1, 0, 1), 1), (u(1, 2, 1), 2)], rels: e(), svc: vec![] });
+  shapes.push(Start { vm: vec![(u(1, 2, 1), 2), (u(1, 0, 1), 1), (u(1, 1, 2), 3)], rels: e(), svc: vec![] });
   // ... and the same with a KEYLESS foreign method (payload >= 500), whose digest is free in the key-id store
   shapes.push(Start { vm: vec![(u(2, 0, 1), 501)], rels: e(), svc: vec![] });
   shapes.push(Start { vm: vec![(u(2, 0, 1), 501), (u(1, 0, 2), 2), (u(2, 0, 5), 505)], rels: e(), svc: vec![] });
